@@ -153,6 +153,7 @@ fn main() {
     console::set_colors_enabled_stderr(false);
 
     if let Some(path) = replay {
+        util::abort_guard_install();
         let text = std::fs::read_to_string(&path).expect("replay file");
         let v: Value = serde_json::from_str(&text).expect("replay json");
         std::process::exit((check.replay)(&v));
